@@ -26,7 +26,10 @@ func initPath() {
 		"==",
 		func(_ *Thread, args []value.Value) (value.Value, value.Value) {
 			self := (*value.Path)(args[0].Pointer())
-			other := (*value.Path)(args[1].Pointer())
+			other, ok := args[1].SafeAsReference().(*value.Path)
+			if !ok {
+				return value.False.ToValue(), value.Undefined
+			}
 			return value.BoolVal(self.Equal(other)), value.Undefined
 		},
 		DefWithParameters(1),
